@@ -134,10 +134,30 @@ pub fn replay_raw(prop: &str, data: &[u8]) -> Report {
     rep
 }
 
+/// What distinguishes the two libFuzzer targets for the campaign driver.
+pub struct Target<'a> {
+    pub bin_env: &'a str,
+    pub max_len: u32,
+    pub seed_dir: std::path::PathBuf,
+    pub dict: Option<std::path::PathBuf>,
+    pub replay: fn(&str, &[u8]) -> Report,
+    pub nontrivial: fn(&str, &[u8]) -> bool,
+    pub sample: Option<fn(&[u8]) -> Value>,
+}
+
+fn play_nontrivial(_prop: &str, data: &[u8]) -> bool {
+    decode(data).map_or(false, |d| d.script.iter().any(|s| s.starts_with("make ")))
+}
+
 /// Run a libFuzzer campaign with the prebuilt target and re-judge every artifact.
 pub fn campaign(ctx: &Ctx, prop: &str, rep: &mut Report) {
+    let t = Target { bin_env: "RCE_FUZZ_BIN", max_len: 384, seed_dir: ctx.verif.join("corpus").join("fuzz_play"), dict: None, replay: replay_raw, nontrivial: play_nontrivial, sample: None };
+    campaign_on(ctx, prop, rep, &t);
+}
+
+pub fn campaign_on(ctx: &Ctx, prop: &str, rep: &mut Report, t: &Target) {
     use std::process::{Command, Stdio};
-    let Some(bin) = std::env::var_os("RCE_FUZZ_BIN").map(std::path::PathBuf::from).filter(|p| p.exists()) else {
+    let Some(bin) = std::env::var_os(t.bin_env).map(std::path::PathBuf::from).filter(|p| p.exists()) else {
         rep.note("libFuzzer campaign skipped: fuzz target not built (see DESIGN.md 10.5)");
         return;
     };
@@ -147,14 +167,18 @@ pub fn campaign(ctx: &Ctx, prop: &str, rep: &mut Report) {
     let art = work.join("artifacts");
     let _ = std::fs::create_dir_all(&corpus_dir);
     let _ = std::fs::create_dir_all(&art);
-    let seed_dir = ctx.verif.join("corpus").join("fuzz_play");
+    let seed_dir = t.seed_dir.clone();
     let known: Vec<String> = ctx.known.iter().map(|k| format!("{}:{}", k.property, k.sig)).collect();
-    let out = Command::new(&bin)
+    let mut cmd = Command::new(&bin);
+    if let Some(d) = &t.dict {
+        cmd.arg(format!("-dict={}", d.display()));
+    }
+    let out = cmd
         .arg(format!("-fork={}", 16))
         .arg(format!("-max_total_time={secs}"))
         .arg(format!("-seed={}", (ctx.seed % 0xffff_fffe) + 1))
         .arg("-len_control=0")
-        .arg("-max_len=384")
+        .arg(format!("-max_len={}", t.max_len))
         .arg("-ignore_crashes=1")
         .arg(format!("-artifact_prefix={}/", art.display()))
         .arg(&corpus_dir)
@@ -199,7 +223,7 @@ pub fn campaign(ctx: &Ctx, prop: &str, rep: &mut Report) {
         for f in rd.flatten() {
             if let Ok(data) = std::fs::read(f.path()) {
                 rep.class("libfuzzer:artifacts-rejudged");
-                let r = replay_raw(prop, &data);
+                let r = (t.replay)(prop, &data);
                 for v in r.violations {
                     rep.violation(v);
                 }
@@ -210,8 +234,11 @@ pub fn campaign(ctx: &Ctx, prop: &str, rep: &mut Report) {
     if let Ok(rd) = std::fs::read_dir(&corpus_dir) {
         for f in rd.flatten() {
             if let Ok(data) = std::fs::read(f.path()) {
-                if decode(&data).map_or(false, |d| d.script.iter().any(|s| s.starts_with("make "))) {
+                if (t.nontrivial)(prop, &data) {
                     rep.nontrivial(o::hash_bytes(&data, 0xF022));
+                    if let Some(sf) = t.sample {
+                        rep.sample_for("libfuzzer-corpus", || sf(&data));
+                    }
                 }
             }
         }
